@@ -268,6 +268,58 @@ def r_tagonly(c):
                     for t in st.targets:
                         if isinstance(t, ast.Name):
                             local.setdefault(t.id, []).append(st.value)
+            def derived_from_self(v, f):
+                srcs = [ast.unparse(v)]
+                seen = set()
+                work = [v]
+                while work:
+                    x = work.pop()
+                    for nm in ast.walk(x):
+                        if isinstance(nm, ast.Name) and nm.id in local and nm.id not in seen:
+                            seen.add(nm.id)
+                            for d in local[nm.id]:
+                                srcs.append(ast.unparse(d))
+                                work.append(d)
+                # for a mapping/sequence field the whole old value has to take part
+                # (dict(self.f), {**self.f}, (*self.f[:i], x, *self.f[i+1:]) ...), not
+                # just one element self.f[k]
+                whole = False
+                nodes = [v] + [d for nm_ in seen for d in local[nm_]]
+                for root in nodes:
+                    for a in ast.walk(root):
+                        if isinstance(a, ast.Attribute) and ast.unparse(a) == f"self.{f}":
+                            par = getattr(a, "_parent", None)
+                            if not (isinstance(par, ast.Subscript) and par.value is a
+                                    and not isinstance(par.slice, ast.Slice)):
+                                whole = True
+                ann = ast.unparse(m.fields(k)[f][0]) if f in m.fields(k) else ""
+                container = any(t in ann for t in ("Mapping", "tuple[", "dict", "AxesT"))
+                ok_ = any(f"self.{f}" in s_ for s_ in srcs) and (whole or not container)
+                return ok_, srcs[0]
+            # partial rebuilds: self.copy(f=v) / dataclasses.replace(self, f=v)
+            for call in ast.walk(fd):
+                if not isinstance(call, ast.Call):
+                    continue
+                fsrc = ast.unparse(call.func)
+                partial = (fsrc == "self.copy") or (
+                    fsrc in ("dataclasses.replace", "replace") and call.args
+                    and ast.unparse(call.args[0]) == "self")
+                if not partial or mn == "copy":
+                    continue
+                n += 1
+                for kw in call.keywords:
+                    if kw.arg is None or kw.arg not in m.fields(k):
+                        continue
+                    okd, src0 = derived_from_self(kw.value, kw.arg)
+                    # a bare parameter (tags=tags) is the new value itself: fine for
+                    # the field the API is about
+                    is_param = isinstance(kw.value, ast.Name) and kw.value.id in [
+                        a.arg for a in fd.args.args]
+                    c.check(okd or is_param, "R05-TAGONLY", f"{short(k)}.{mn}",
+                            f"{short(k)}.{kw.arg}:partial-rebuild", m.loc(ci.module, call),
+                            f"{kw.arg}= of the rebuilt node is `{src0[:60]}`, which is not "
+                            f"derived from self.{kw.arg}: the other entries of that field "
+                            "are dropped by the tag API")
             for call in ast.walk(fd):
                 if not (isinstance(call, ast.Call) and isinstance(call.func, ast.Call)
                         and ast.unparse(call.func) == "type(self)"):
@@ -306,7 +358,7 @@ def r_tagonly(c):
                             f"{f}= of the rebuilt node is `{srcs[0][:60]}`, not derived "
                             f"from self.{f}")
     if n < 4:
-        raise AnalysisError(f"only {n} hand-written tag-API rebuilds found (floor 4)")
+        raise AnalysisError(f"only {n} tag-API rebuilds found (floor 4)")
     # tag-adding transformations create nodes only through tag APIs /
     # child-preserving replace_if_different
     tagonly = [MPMS, "pytato.transform.metadata.AxisTagAttacher",
